@@ -96,6 +96,12 @@ func (index *GsfaReader) Meta() indexmeta.Meta {
 	return index.man.Meta()
 }
 
+// OffsetsMeta returns the identity (epoch, root CID, network) recorded in the pubkey-to-offset-and-size index
+// of the directory; the manifest records its own copy, and nothing ties the two files together but these values.
+func (index *GsfaReader) OffsetsMeta() *indexes.Metadata {
+	return index.offsets.Meta()
+}
+
 func (index *GsfaReader) Version() uint64 {
 	return index.man.Version()
 }
